@@ -63,13 +63,13 @@ def run(rep, tier, driver):
     forms = []
     for child, parent in [("Gal", "Glc"), ("Neu5Ac", "Gal"), ("Kdo", "GlcN"), ("Fruf", "Glc"), ("Man", "Man")]:
         for a in ["a", "b", "?"]:
-            for i in [1, 2, 3]:
-                for j in [1, 2, 3, 4, 5, 6, 7, 8, 9, "?"]:
+            for i in [1, 2, 3, 10]:
+                for j in [1, 2, 3, 4, 5, 6, 7, 8, 9, 10, 11, 12, 25, "?"]:
                     forms.append((child, parent, "(%s%s-%s)" % (a, i, j), "(%s%s-%s)" % (a, i, j), "full"))
                     forms.append((child, parent, "%s%s-%s" % (a, i, j), "(%s%s-%s)" % (a, i, j), "condensed"))
                     if a != "?":
                         forms.append((child, parent, "(%s-%s)" % (i, j), "(%s-%s)" % (i, j), "nosym"))
-            for j in [1, 2, 3, 4, 5, 6, 7, 8, 9]:
+            for j in [1, 2, 3, 4, 5, 6, 7, 8, 9, 10, 11, 12, 25]:
                 d = 2 if child in ("Neu5Ac", "Kdo") else (2 if child == "Fruf" else 1)
                 forms.append((child, parent, "%s%s" % (a, j), "(%s%d-%s)" % (a, d, j), "short"))
     seen = set()
